@@ -146,10 +146,12 @@ def c19_4(ctx: Ctx):
             except Unknown as exc:
                 raise AnalysisError(f"version-definition guard not interpretable: {exc}")
         got = f_eval(g.guard, vals)
-        if got != (flags != 1):
+        # VER_FLG_BASE is a bit of a mask (VER_FLG_BASE=1, VER_FLG_WEAK=2, ...): base|weak = 3 is still the base definition
+        if got != ((flags & 1) == 0):
             bad.append((flags, got))
-    ctx.check(not bad, fi, g.node, "an unused definition is deleted iff its flags are not VER_FLG_BASE",
-              f"(flags, deleted) = {bad}: unused definitions with other flags (e.g. weak = 2) must be dropped, the base definition (1) must stay")
+    ctx.check(not bad, fi, g.node, "an unused definition is deleted iff its flags lack the VER_FLG_BASE bit",
+              f"(flags, deleted) = {bad}: unused definitions without the base bit (e.g. weak = 2) must be dropped, every definition with the base bit (1, 3 = BASE|WEAK) must stay",
+              key="C19.4::base-bit")
     ctx.check(len(g.loops) == 1 and src(g.loops[0].iter) == "ids_to_remove", fi, g.node, "only ids without remaining users are candidates", "loop changed")
     keep = single_assign_value(fi.node, "ids_to_keep")
     ctx.check(keep is not None and src(keep).replace(" ", "") == "set((idfor(id,_)inentries.values()))".replace(" ", "") or (keep is not None and "entries.values()" in src(keep)), fi, keep or fi.node,
